@@ -41,6 +41,33 @@ def len_linear(t) -> Optional[Tuple[Any, int, int]]:
     return None
 
 
+class AmpDict(dict):
+    """The amplifier findings, each with its *site*: the entry point it is reached from and the kind of amplifier.  A known finding
+    is recognised by its key or, when the statement was moved into a helper or its operands renamed, by its site."""
+    site_root = ''
+
+    @staticmethod
+    def kind_of(det: str) -> str:
+        for needle, kind in (('concatenates', 'seq +'), ('repeats it', 'seq *'), ('pieces', 'split'), ('matches (empty pattern)', 'regex'),
+                             ('can build a string longer', 'regex sub'), ('text of a program value', 'text'), ('text of program values', 'text'),
+                             ('range(n)', 'range'), ('can add more than one element', 'bulk growth')):
+            if needle in det:
+                return kind
+        if det.startswith('str.'):
+            return det.split(' ', 1)[0]
+        return 'other'
+
+    def setdefault(self, key, val):
+        if len(val) == 3 and not val[0] and self.site_root:
+            val = val + ('%s :: %s' % (self.site_root, self.kind_of(val[2])),)
+        return dict.setdefault(self, key, val)
+
+    def __setitem__(self, key, val):
+        if len(val) == 3 and not val[0] and self.site_root:
+            val = val + ('%s :: %s' % (self.site_root, self.kind_of(val[2])),)
+        dict.__setitem__(self, key, val)
+
+
 def cap_form(cond, truth: bool) -> Optional[Tuple[Any, int]]:
     """If `cond == truth` means  len(X) >= k : (X, k)."""
     cond = freeze(cond)
@@ -170,7 +197,7 @@ def check(chk: Check) -> None:
     guards_seen: Dict[int, Dict[str, Any]] = {}
     growth_seen: Dict[str, Tuple[bool, str, str]] = {}
     first_touch: Dict[str, Tuple[bool, str, str]] = {}
-    amp_seen: Dict[str, Tuple[bool, str, str]] = {}
+    amp_seen = AmpDict()
     tab = functab.table(F)
 
     # raw table entries that are amplifiers by themselves
@@ -185,6 +212,7 @@ def check(chk: Check) -> None:
                                                               'raw string amplifier exposed without a cap')
 
     for label, fi, thunk, ignore, where in units(chk):
+        amp_seen.site_root = 'C03.R3 :: ' + label.split(' -> ')[0].split(' [')[0] + (label[label.index(' [op='):] if ' [op=' in label else '')
         paths = thunk()
         closures = []
         for c in om.all_closures(paths):
@@ -276,8 +304,12 @@ def check(chk: Check) -> None:
             amp_seen['%s defines __index__' % cq] = (False, '%s:%d' % (ci.module.rel, ci.methods['__index__'].lineno),
                                                     'with __index__ the language\'s numbers are accepted as repeat counts: `x = [1, 2, 3]; x *= 5000` builds a '
                                                     '15000-element list (the compound assignments apply the native operator and relied on the TypeError)')
-    for key, (ok, wh, det) in sorted(amp_seen.items()):
-        chk.require(ok, R3, key, wh, det)
+    for key, val in sorted(amp_seen.items()):
+        ok, wh, det = val[:3]
+        if ok:
+            chk.ok(R3, key, wh, det)
+        else:
+            chk.bad(R3, key, wh, det, site=val[3] if len(val) > 3 else None)
     from . import common as _common
     for label, wh, text in _common.default_factory_dicts(chk):
         chk.bad(R3, '%s returns a dict with a default factory' % label, wh,
@@ -305,6 +337,12 @@ def _amplifiers(F, e: Event, p: Path, label: str, fi, ignore, amp_seen, wh: str)
     arm = ''
     if ' [op=' in label and not e.depth():
         arm = label[label.index(' [op='):]
+    # the site of a finding: the entry point it is reached from and the kind of amplifier - what survives a refactoring that moves
+    # the statement into a helper or renames its operands
+    site_root = 'C03.R3 :: ' + label.split(' -> ')[0].split(' [')[0] + (label[label.index(' [op='):] if ' [op=' in label else '')
+
+    def put(key, det, kind):
+        amp_seen.setdefault(key, (False, wh, det, '%s :: %s' % (site_root, kind)))
 
     def program_value(t) -> bool:
         """Could this be a str / list held by the program (as opposed to a proven number or a local constant)?"""
